@@ -17,11 +17,22 @@ func c16(line string) string {
 		return globIn(lastDir, unhex(f[1]))
 	}
 	if lastDir != "" {
-		os.RemoveAll(lastDir)
+		os.RemoveAll(lastBase)
 		lastDir = ""
 	}
-	dir, err := os.MkdirTemp("", "verifc16")
+	// The tree lives at the bottom of a chain of directories that are all called R and contain nothing but the next R, so
+	// that a pattern climbing out of the tree with ".." sees what the model assumes above the root (a directory holding
+	// only R), whatever else exists on this machine.
+	base, err := os.MkdirTemp(scratchBase(), "verifc16")
 	if err != nil {
+		return "HARNESS-ERROR " + err.Error()
+	}
+	lastBase = base
+	dir := base
+	for i := 0; i < 8; i++ {
+		dir = filepath.Join(dir, "R")
+	}
+	if err := os.MkdirAll(dir, 0o755); err != nil {
 		return "HARNESS-ERROR " + err.Error()
 	}
 	lastDir, lastTree = dir, f[0]
@@ -47,12 +58,20 @@ func c16(line string) string {
 	return globIn(dir, unhex(f[1]))
 }
 
-var lastDir, lastTree string
+var lastDir, lastTree, lastBase string
+
+// scratchBase: next to the harness binary (under /verif/build), never /tmp
+func scratchBase() string {
+	if exe, err := os.Executable(); err == nil {
+		return filepath.Dir(exe)
+	}
+	return ""
+}
 
 // cleanupC16 removes the cached scratch tree (called when the harness exits).
 func cleanupC16() {
-	if lastDir != "" {
-		os.RemoveAll(lastDir)
+	if lastBase != "" {
+		os.RemoveAll(lastBase)
 	}
 }
 
